@@ -259,6 +259,12 @@ CYCLES = [
     ("vector-box-long", "(define c1 (vector 0)) (vector-set! c1 0 (let loop ([i 0] [acc c1]) (if (= i 1000) acc (loop (+ i 1) (vector (box acc)))))) "
                         "(define c2 (vector 0)) (vector-set! c2 0 (let loop ([i 0] [acc c2]) (if (= i 1000) acc (loop (+ i 1) (vector (box acc))))))"),
     ("closure-box", "(define c1 (box 0)) (set-box! c1 (lambda () c1)) (define c2 (box 0)) (set-box! c2 (lambda () c2))"),
+    # cycles entered through STRONG boxes (box-strong: a reference-counted mutable cell outside the collected heap)
+    ("strongbox-self", "(define c1 (box-strong 0)) (set-strong-box! c1 c1) (define c2 (box-strong 0)) (set-strong-box! c2 c2)"),
+    ("strongbox-2ring", "(define c1 (box-strong 0)) (define c1b (box-strong c1)) (set-strong-box! c1 c1b) "
+                        "(define c2 (box-strong 0)) (define c2b (box-strong c2)) (set-strong-box! c2 c2b)"),
+    ("strongbox-list-box", "(define c1 (box-strong 0)) (set-strong-box! c1 (list (box 0) c1)) (define c2 (box-strong 0)) (set-strong-box! c2 (list (box 0) c2))"),
+    ("strongbox-vector", "(define c1 (box-strong 0)) (set-strong-box! c1 (vector c1 1)) (define c2 (box-strong 0)) (set-strong-box! c2 (vector c2 1))"),
 ]
 CYCLE_OPS = {"equal": "(equal? c1 c2)", "equal-self": "(equal? c1 c1)", "print": "(string-length (to-string c1))",
              "discard": "(begin (set! c1 #f) (set! c2 #f) (#%gc-collect) 'discarded)", "hash": "(hash-contains? (hash-insert (hash) c1 1) c1)"}
@@ -373,6 +379,14 @@ def c18_cyclic_print_through_box(case, params):
     (native stack overflow)."""
     return (case.get("search") == "cycle" and case.get("op") == "print" and case.get("outcome") in ("panic", "crash", "hang")
             and case.get("cycle") in params.get("cycles", []))
+
+
+def c18_strong_box_cycle(case, params):
+    """A cycle that goes through a STRONG box (box-strong / set-strong-box!): printing, hashing, the global-slot recycler
+    and (for rings of strong boxes) discarding do not terminate or exhaust the stack / memory.  equal? terminates on
+    these values and is NOT part of the class."""
+    return (case.get("search") == "cycle" and str(case.get("cycle", "")).startswith("strongbox")
+            and case.get("op") in ("print", "hash", "recycle", "discard") and case.get("outcome") in ("hang", "crash"))
 
 
 def c18_cyclic_hash(case, params):
